@@ -177,3 +177,17 @@ pub fn kv(line: &str) -> std::collections::HashMap<String, String> {
 pub fn errno_of_io(e: &std::io::Error) -> i32 {
     e.raw_os_error().unwrap_or(-1)
 }
+
+/// Backend-independent classification of a platform-level receive error, through the crate's own
+/// conversion to `ipc::TryRecvError` (the conversion to io::Error differs between back ends).
+pub fn classify_recv<E: Into<ipc_channel::ipc::TryRecvError>>(e: E) -> String {
+    match e.into() {
+        ipc_channel::ipc::TryRecvError::Empty => "Empty".into(),
+        ipc_channel::ipc::TryRecvError::IpcError(ipc_channel::ipc::IpcError::Disconnected) => "Disconnected".into(),
+        ipc_channel::ipc::TryRecvError::IpcError(ipc_channel::ipc::IpcError::Io(io)) => match io.raw_os_error() {
+            Some(c) => format!("Errno({})", c),
+            None => format!("Other({:?})", io.kind()),
+        },
+        ipc_channel::ipc::TryRecvError::IpcError(other) => format!("Other({:?})", other),
+    }
+}
